@@ -189,8 +189,26 @@ def focused_strategy():
     return s()
 
 
+def dynamic_path_cases(tier):
+    """dynamic is a whitelisted, serialisable type and accepts a path: enumerate that corner separately."""
+    import datetime as _d
+
+    g = _d.datetime(2020, 1, 1, tzinfo=_d.timezone.utc)
+    out = []
+    for flavour, s_, via in (("posix", "/tmp/x", "str"), ("posix", "a/b", "pure"), ("windows", "c:\\x\\y", "from"),
+                             ("posix", "", "from"), ("windows", "\\\\host\\share\\f", "pure")):
+        for transport in ("bytesio", "path"):
+            rec = {"desc": ("t/dyn", (("dynamic", "d"), ("string", "s"))), "vals": [gen.M("path", (flavour, s_, via)), "x"],
+                   "src": None, "cls": None, "gen": g}
+            if via == "str":
+                rec["vals"][0] = gen.M("path", (flavour, s_, "pure"))
+            out.append({"seq": [gen.M("plain", rec)], "transport": transport})
+    return out
+
+
 def parts(tier):
     return [
+        Part("dynamic-holding-path", check_roundtrip, cases=dynamic_path_cases, exhaustive=True),
         Part("roundtrip", check_roundtrip, strategy=case_strategy(), examples=(200, 3000)),
         Part("roundtrip-focused", check_roundtrip, strategy=focused_strategy(), examples=(300, 4000)),
     ]
